@@ -46,6 +46,7 @@ Struck ==
        ELSE UNCHANGED <<medium, last>>
 TNext == /\ l <= Len(TraceLog) /\ l' = l + 1
          /\ CASE e.op = "@" -> Restart
+              [] e.op = "mbase" -> UNCHANGED vars /\ ev' = Ev("mbase", e.a, <<0>>)    \* harness: medium offsets are presented to the library shifted by a 32-bit base (Persistent.tla is translation invariant)
               [] e.op \in {"fault", "crash"} -> Arm
               [] armed # <<>> /\ e.op \notin {"reopen", "corrupt", "cfg"} /\ e.o[3] = 1 -> Struck
               [] OTHER -> Plain /\ ev'.o = e.o /\ armed' = <<>>
